@@ -41,12 +41,13 @@ Definition check (c : case) : bool :=
   match c with
   | CX509 roots chain n t go_ok => Bool.eqb (toy_x509_verify roots t n chain) go_ok
   | CFresh cfg pub accepted osn chain outcome =>
-      let cn := t_conn cfg pub accepted in
+      (* without ECH the observed c.serverName IS the "name in SNI" input; with ECH it must be the public / inner name *)
+      let cn := t_conn osn cfg pub accepted in
       bytes_eqb (c_server_name cn) osn && (result_code (t_result cfg cn chain) =? outcome)%N
   | CInfer cfg pub accepted l iname itime =>
-      let cn := t_conn cfg pub accepted in
+      let cn := t_conn [] cfg pub accepted in
       match iname with
-      | Some n => oname_eqb (model_name cfg cn l) n
+      | Some n => oname_eqb (option_map norm_host (model_name cfg cn l)) (option_map norm_host n)
       | None => false
       end && (model_time_class cfg cn =? itime)%N
   | CResume cfg l has did => Bool.eqb (t_load_session cfg (mkSession l has)) did
